@@ -90,6 +90,7 @@ class FsMonitor:
         self.armed = False
         self.on_lib_event = None    # optional callback(event record) - e.g. yield injection
         self.counts = {}
+        self.clock = None           # optional logical clock shared with the interpreter (C17)
 
     # ---- arming
     def __enter__(self):
@@ -151,6 +152,8 @@ class FsMonitor:
                'thread': threading.get_ident()}
         if not user and not relfd and kind in ('os.mkdir', 'os.rename', 'os.remove', 'os.rmdir'):
             rec['realistic'] = realistic_fault(kind, paths)
+        if self.clock is not None:
+            rec['clk'] = self.clock()
         with self.lock:
             rec['seq'] = len(self.events)
             self.events.append(rec)
